@@ -32,6 +32,8 @@ func c06Alphabet(c Cfg) []Op {
 		{K: "del", Key: "b", Dev: true},
 		{K: "batch", Sub: []Op{{K: "put", Key: "a", VC: "S"}, {K: "put", Key: "b", VC: "S"}}, Dev: true},
 		{K: "batch", Sub: []Op{{K: "put", Key: "a", VC: "L"}, {K: "put", Key: "b", VC: "L"}, {K: "del", Key: "a"}}, Dev: true},
+		{K: "restartfs", Arg: 64, Dev: true},  // reopen with a smaller file-size limit: the next merge output needs MORE files than its input
+		{K: "restartfs", Arg: 400, Dev: true}, // ... with a larger one: fewer
 	}
 	return a
 }
@@ -136,7 +138,7 @@ func runC06(cfg Cfg, keys []string, ops []Op, res *TaskResult) *Violation {
 					shapes["more"] = true
 				}
 			}
-		case "restart":
+		case "restart", "restartfs":
 			if pending != nil {
 				if c, d := checkAdopted(w, pending); c != "" {
 					return viol("C06", c, c, fmt.Sprintf("step %d %s (adopting the merge of %d input files into %d): %s\n%s", i, op, pending.inFiles, pending.outFiles, d, listDirs(w)))
@@ -395,6 +397,20 @@ func indexString(w *World) string {
 	return b.String()
 }
 
+// long keys: two of them make the hint file span more than one 32 KiB block (a hint record that starts in
+// one block and ends in the next forces the reader to reuse its block buffer while earlier keys are live)
+var c18LongKeys = []string{"K" + string(patternBytes(19999, 21)), "L" + string(patternBytes(19999, 22)), "m"}
+
+func c18LongAlphabet(c Cfg) []Op {
+	return []Op{
+		{K: "put", Key: c18LongKeys[0], VC: "S"},
+		{K: "put", Key: c18LongKeys[1], VC: "S"},
+		{K: "put", Key: c18LongKeys[2], VC: "S"},
+		{K: "del", Key: c18LongKeys[0], Dev: true},
+		{K: "restart", Dev: true},
+	}
+}
+
 func runC18(cfg Cfg, keys []string, ops []Op, res *TaskResult) *Violation {
 	// every sequence is followed by Merge (both scan orders on separate runs)
 	for _, perm := range []int{0, 1} {
@@ -501,7 +517,7 @@ func init() {
 	register(&Check{
 		Prop:   "C18",
 		Engine: "seq",
-		Rule:   "operation sequences over keys that look like varints (0x80 0x01, 0xff..), a 300-byte key and a plain key, each followed by Merge (both scan orders): the hint file is decoded with the package's reader and every entry is checked against the record decoded at that position in the merged files (key, type, size); hinted keys = stored keys = live keys; differential open of a copy: hint-path Open vs scan-path Open must give the same index entries (positions, sizes), values and KeyNum. non-trivial = sequences whose Merge succeeded",
+		Rule:   "operation sequences over keys that look like varints (0x80 0x01, 0xff..), a 300-byte key and a plain key (and, in a second level, two 20 000-byte keys that make the hint file span block boundaries, under all three index types), each followed by Merge (both scan orders): the hint file is decoded with the package's reader and every entry is checked against the record decoded at that position in the merged files (key, type, size); hinted keys = stored keys = live keys; differential open of a copy: hint-path Open vs scan-path Open must give the same index entries (positions, sizes), values and KeyNum. non-trivial = sequences whose Merge succeeded",
 		Assumptions: []string{
 			"differential open on Standard I/O (an outside copy of an open MMap database has no logical file end)",
 		},
@@ -518,7 +534,18 @@ func init() {
 			mm := defaultCfg
 			mm.IO = 1
 			cfgs = append(cfgs, c64, big, mm)
-			return seqTasks("C18", []seqLevel{{Name: fmt.Sprintf("d%db%d", d, b), Cfgs: cfgs, Keys: c18Keys, Alpha: c18Alphabet, Depth: d, Dev: b, Run: runC18}})
+			var longCfgs []Cfg
+			for _, ix := range []int8{1, 2, 3} {
+				lc := defaultCfg
+				lc.Index, lc.FileSize = ix, 1<<20
+				longCfgs = append(longCfgs, lc)
+				lc.FileSize = 30000 // one long-key record per file
+				longCfgs = append(longCfgs, lc)
+			}
+			return seqTasks("C18", []seqLevel{
+				{Name: fmt.Sprintf("d%db%d", d, b), Cfgs: cfgs, Keys: c18Keys, Alpha: c18Alphabet, Depth: d, Dev: b, Run: runC18},
+				{Name: "long-keys-d4", Cfgs: longCfgs, Keys: c18LongKeys, Alpha: c18LongAlphabet, Depth: 4, Dev: 2, Run: runC18},
+			})
 		},
 		Bounds: func(tier string) map[string]any {
 			if tier == "quick" {
